@@ -164,15 +164,30 @@ def transform(rnd, m0):
 
 def gen_group(tier, seed, k):
     rnd = run.rng("C15", tier, seed, "grp", k)
-    m0 = base_lp(rnd, tier, big=(True if (tier == "thorough" and k % 8 == 7) else ("large" if (k % 4 == 3 or k >= 32) else False)))
-    nvar = 3 if tier == "quick" else 7
+    small = k % 4 == 1
+    if small:
+        # small groups are (also) solved by the rational simplex itself, with and without scaling: its reported value comes from
+        # other code than the exact driver's (dual objective bookkeeping, fixed and boxed columns)
+        m0 = gen_lp.planted_optimal(rnd, rnd.randint(4, 18), rnd.randint(4, 22), "int")
+        for c in m0.cols:
+            c.name = None
+        for r in m0.rows:
+            r.name = None
+        m0 = gen_lp._names(m0)
+    else:
+        m0 = base_lp(rnd, tier, big=(True if (tier == "thorough" and k % 8 == 7) else ("large" if (k % 4 == 3 or k >= 32) else False)))
+    nvar = (5 if small else 3) if tier == "quick" else 7
     variants = [(m0, F(1), Z, ["identity"])] + [transform(rnd, m0) for _ in range(nvar)]
     cases = []
     for t, (m, a, b, ap) in enumerate(variants):
         algo = rnd.choice(["primal", "dual"])
         L = model.script_build(m, "p0", rowwise=rnd.random() < 0.5)
+        entry = "solve_exact p0 %s - xy" % algo
+        if small and rnd.random() < 0.75:
+            entry = rnd.choice(["opt_dual p0", "opt_dual p0", "opt_primal p0"])
+            L.append("set_param p0 5 3000")
         L += ["set_param p0 0 %d" % rnd.choice(sf.PP), "set_param p0 2 %d" % rnd.choice(sf.DP), "set_param p0 7 %d" % rnd.choice([0, 1]),
-              "solve_exact p0 %s - xy" % algo, "dumpsol p0"]
+              entry, "dumpsol p0"]
         cases.append(run.Case("C15-%d-%d" % (k, t), L, dict(group=k, variant=t, applied=ap, tier=tier, seed=seed)))
     return m0, variants, cases
 
@@ -188,7 +203,7 @@ def judge_group(m0, variants, cases, res):
         if r.timeout:
             C["watchdog_inconclusive"] = C.get("watchdog_inconclusive", 0) + 1
             continue
-        ev = r.ev("solve_exact")
+        ev = r.ev("solve_exact") or r.ev("opt_dual") or r.ev("opt_primal")
         ds = r.ev("dumpsol")
         st = ev.get("status")
         C["solves"] = C.get("solves", 0) + 1
@@ -196,6 +211,10 @@ def judge_group(m0, variants, cases, res):
         for tname in ap:
             C["transform:" + tname] = C.get("transform:" + tname, 0) + 1
         C["rows>=100" if m.nrows >= 100 else "rows<100"] = C.get("rows>=100" if m.nrows >= 100 else "rows<100", 0) + 1
+        if (ev.get("rc") != 0 or st not in (1, 2, 3)) and ev.get("op") in ("opt_dual", "opt_primal"):
+            # the pure rational simplex may cycle on degenerate LPs and stop at its iteration bound: not a definitive answer
+            C["rational-simplex-non-definitive"] = C.get("rational-simplex-non-definitive", 0) + 1
+            continue
         if ev.get("rc") != 0 or st not in (1, 2, 3):
             V.append(("C15|non-definitive|%s" % sf.ST.get(st, st), "variant %s of a well-formed LP (%dx%d) ended with rc=%r status %s" % (ap, m.nrows, m.ncols, ev.get("rc"), sf.ST.get(st, st)), c))
             continue
